@@ -60,6 +60,12 @@ def run_check(pid, tier="quick", timeout=900):
         rc, out = sh(f"{HARN}/target/release/nvh {pid} {tier}", timeout=timeout)
     except subprocess.TimeoutExpired:
         return 124, "timeout", time.time() - t0
+    if rc < 0 or rc > 128:
+        # the harness process died by a signal: do what ./check does (crash triage)
+        signo = -rc if rc < 0 else rc - 128
+        rc2, out2 = sh(f"/verif/tools/crash_triage.sh {HARN}/target/release/nvh {pid} {ROOT}/replays/found {signo}", timeout=1200)
+        first = [l for l in out2.splitlines() if l.strip()]
+        return rc2, ("crash-triage: " + " | ".join(first[:2]))[:300], time.time() - t0
     sig = [l for l in out.splitlines() if "signature=" in l]
     return rc, (sig[0].strip() if sig else ""), time.time() - t0
 
